@@ -329,6 +329,12 @@ func constructMatchStyleRegex(s *Segment) (*regexp.Regexp, []string, error) {
 				return nil, nil, errors.Errorf("segment has non-regex literal in position %d", e.Pos.Offset)
 			}
 
+			// The expression must be well-formed on its own, e.g. "a)(b" would otherwise
+			// pair up with the group that is put around it.
+			if _, err := regexp.Compile(*p.Value.Regex); err != nil {
+				return nil, nil, errors.Wrapf(err, "compile regexp of %q in position %d", p.Ident, e.Pos.Offset)
+			}
+
 			binds = append(binds, p.Ident)
 			buf.WriteString("(")
 			buf.WriteString(nonCapturing(*p.Value.Regex))
